@@ -117,7 +117,7 @@ impl Property for C06 {
          oracle = Instance::evaluate of each state alone (tied to the reference model by C05) + key-set and re-grouping invariance; non-trivial = >=2 ids and (shared entry or duplicate state across entries or equal values from different states); distinct = sha256(instance, pairs, grouping)"
     }
     fn required_labels(&self) -> Vec<String> {
-        ["multi-id-entry", "dup-state-separate-entries", "value-collision", "omits-irrelevant", "add_sample", "n>=4", "dependency", "removed-constraint", "fixed-variable"].iter().map(|s| s.to_string()).collect()
+        ["multi-id-entry", "dup-state-separate-entries", "value-collision", "omits-irrelevant", "omits-different-subsets", "add_sample", "n>=4", "dependency", "removed-constraint", "fixed-variable"].iter().map(|s| s.to_string()).collect()
     }
     fn cases(&self, tier: Tier) -> usize {
         match tier {
@@ -138,6 +138,8 @@ impl Property for C06 {
         let use_add = t.p(48);
         let omit_irrelevant = t.p(140);
         let collide = t.p(100);
+        // which irrelevant variables each state assigns (different subsets per state)
+        let masks: Vec<u16> = (0..8).map(|_| t.u16()).collect();
         let cfg = InstCfg::new(regime);
         let mut gi = gen_instance(t, &cfg, ctx);
         // sample ids
@@ -153,12 +155,20 @@ impl Property for C06 {
             let st = if i > 0 && t.p(90) {
                 pairs[t.choice(pairs.len())].1.clone()
             } else {
-                gen_inst_state(t, &gi, regime, !omit_irrelevant)
+                if omit_irrelevant {
+                    gen_inst_state_partial(t, &gi, regime, masks[i])
+                } else {
+                    gen_inst_state(t, &gi, regime, true)
+                }
             };
             pairs.push((ids[i], st));
         }
         if omit_irrelevant && !gi.irrelevant.is_empty() {
             ctx.label("omits-irrelevant");
+            let keysets: BTreeSet<Vec<u64>> = pairs.iter().map(|p| { let mut k: Vec<u64> = p.1.entries.keys().copied().collect(); k.sort_unstable(); k }).collect();
+            if keysets.len() >= 2 {
+                ctx.label("omits-different-subsets");
+            }
         }
         if collide && n >= 2 {
             // force equal values from different states: make the first constraint constant at both states
